@@ -8,7 +8,7 @@
   Model: a stored regionprops value IS the mask it was computed from (`Val.mask ps`, `Val.none`
   for an empty mask), so "equals the value computed from the current mask" is
   `alook k r.other = some (g.maskVal r.time r.id)` for every active key `k` — the node clause
-  `RpOK` of `MeasOK` (`measOK_iff`).  Parametric in the measure function, hence it covers area,
+  `RpOK` of `MeasOK` (`measOK_iff_sg`).  Parametric in the measure function, hence it covers area,
   position and the shape features alike.
 
   Status.  Proved at the level of the primitives (every user action, undo and redo is a sequence
@@ -71,7 +71,7 @@ theorem C08_meas_step_updSeg (s s' : St) (n : Node) (px : List Pix) (added : Boo
     (g : Seg) (hg : s.seg = some g) (hnd : s.ids.Nodup) (hm : RpOK s)
     (hpre : ∀ r ∈ s.nodes, r.id ≠ n → g.Untouched px (if added then n else 0) r.id)
     (h : s.pUpdSeg n px added = .ok (s', rec)) : RpOK s' := by
-  obtain ⟨g', hg', -, -, rfl⟩ := pUpdSeg_ok h
+  obtain ⟨g', hg', -, -, rfl⟩ := pUpdSeg_ok_sg h
   rw [hg] at hg'; cases hg'
   exact rpOK_congr (iouUpdateNode_seg _ _) (iouUpdateNode_nodes _ _) (iouUpdateNode_rpActive _ _)
     (rpOK_write hg hnd hm hpre)
@@ -88,15 +88,15 @@ theorem C08_meas_step_addNode (s s' : St) (r : NodeRec) (pixels : Option (List P
     (hnd : s.ids.Nodup) (hnew : s.hasNode r.id = false) (hm : RpOK s)
     (hpre : ∀ ps g, pixels = some ps → s.seg = some g → ∀ r' ∈ s.nodes, g.Untouched ps r.id r'.id)
     (h : s.pAddNode r pixels = .ok (s', rec)) : RpOK s' := by
-  obtain ⟨-, -, rfl⟩ := pAddNode_ok h
+  obtain ⟨-, -, rfl⟩ := pAddNode_ok_sg h
   apply (Fr.trackAdd _ _).rpOK
   have hnew1 : (s.paintWith pixels r.id).hasNode r.id = false := by rw [paintWith_hasNode, hnew]
   rw [addNodeRaw_new hnew1]
   have hnotin : r.id ∉ s.ids := fun hmem => by
-    have := (hasNode_iff_mem_ids s r.id).mpr hmem
+    have := (hasNode_iff_mem_ids_sg s r.id).mpr hmem
     rw [hnew] at this; cases this
   apply rpOK_rpUpdate
-  · rw [ids_append, paintWith_ids]
+  · rw [ids_append_sg, paintWith_ids]
     exact List.nodup_append.mpr ⟨hnd, by simp, fun a ha b hb => by
       simp only [List.mem_singleton] at hb; subst hb; exact fun e => hnotin (e ▸ ha)⟩
   · intro g' hg' k hk r' hr' hne
@@ -130,7 +130,7 @@ theorem C08_meas_step_delNode (s s' : St) (n : Node) (pixels : Option (List Pix)
     (hpre : ∀ ps g, s.delPixels n pixels = some ps → s.seg = some g →
       ∀ r' ∈ s.nodes, r'.id ≠ n → g.Untouched ps 0 r'.id)
     (h : s.pDelNode n pixels = .ok (s', rec)) : RpOK s' := by
-  obtain ⟨r, -, -, rfl⟩ := pDelNode_ok h
+  obtain ⟨r, -, -, rfl⟩ := pDelNode_ok_sg h
   apply (Fr.trackOnDelete _ _).rpOK
   intro g' hg' k hk r' hr'
   change (s.paintWith (s.delPixels n pixels) 0).seg = some g' at hg'
@@ -161,11 +161,11 @@ theorem C08_meas_step_noarray (s s' : St) (rec : PrimRec) (hm : RpOK s)
     (h : (∃ e attrs, s.pAddEdge e attrs = .ok (s', rec)) ∨ (∃ e, s.pDelEdge e = .ok (s', rec)) ∨
          (∃ start newT newL, s.pUpdTid start newT newL = .ok (s', rec))) : RpOK s' := by
   rcases h with ⟨e, attrs, h⟩ | ⟨e, h⟩ | ⟨start, newT, newL, h⟩
-  · obtain ⟨-, -, -, rfl⟩ := pAddEdge_ok h
+  · obtain ⟨-, -, -, rfl⟩ := pAddEdge_ok_sg h
     exact rpOK_congr ((iouUpdateEdge_seg _ _).trans (addEdgeRaw_seg ..))
       ((iouUpdateEdge_nodes _ _).trans (addEdgeRaw_nodes ..))
       ((iouUpdateEdge_rpActive _ _).trans (addEdgeRaw_rpActive ..)) hm
-  · rw [pDelEdge_ok h]
+  · rw [pDelEdge_ok_sg h]
     exact rpOK_congr rfl rfl rfl hm
   · exact (Fr.pUpdTid h).rpOK hm
 
@@ -216,7 +216,7 @@ theorem C08_meas_step_updAttrs (s s' : St) (n : Node) (attrs : List (Key × Val)
         split
         · have hne : k ≠ kv.1 := fun e => hkv (e ▸ hk)
           simp only
-          rw [alook_aset_ne hne]; exact this
+          rw [alook_aset_ne_sg hne]; exact this
         · exact this
 
 example : ∃ s' r, exC08.pUpdAttrs 1 [(9, Val.tok 8)] = .ok (s', r) ∧
